@@ -1,6 +1,6 @@
 import ComposeVerif.Lemmas.ShortMerge
 import ComposeVerif.Props.C03
-import ComposeVerif.Lemmas.ShortIdem
+import ComposeVerif.Props.C03Doc
 /-!
 # C03 — short ≡ long survives the merge of a second document (round 5)
 
@@ -115,16 +115,6 @@ theorem twoDocs_networks (mk : Val.KVs → Val.KVs → TPath → Merge.Out Val.K
   constructor
   · simp only [twoDocs, transformServiceNetworks_short_eq_long names hnd, transformServiceNetworks_long_id]
   · simp only [twoDocs, (mergeNetworks_short_eq_long mk names hnd _ p).1]
-
-/-- the long form of `build` is left as it is by the recursive transformer (either `ignoreParseError`) -/
-theorem transformBuild_long_id (ign : Bool) (n s : String) :
-    transform ign ["services", n, "build"] (.map [("context", .str s)]) = .ok (.map [("context", .str s)]) := by
-  have h := (dispatch n "").2.2.2.2.2.2.1
-  have hne : ["services", n, "build"] ≠ TPath.root := by simp [TPath.root]
-  have hk : transformKVs ign ["services", n, "build"] [("context", .str s)] = .ok [("context", .str s)] := by
-    simp [transformKVs, TPath.nextK_of_ne_root _ _ hne, ofList_context, transform, TPath.firstMatch, CV.Gen.transformers,
-      TPath.pmatch, leaf]
-  simp [transform, h, hk, recursesOnMap, bindOut, postMap]
 
 /-- `build`, first and second document, at its position in the tree (the transformer there is the recursive walk) -/
 theorem twoDocs_build (ign : Bool) (mk : Val.KVs → Val.KVs → TPath → Merge.Out Val.KVs) (n s : String) (other : Val) :
